@@ -2134,8 +2134,8 @@ func (d *Document) parseBodyElement(decoder *xml.Decoder) error {
 func (d *Document) parseBodySubElement(decoder *xml.Decoder, startElement xml.StartElement) (interface{}, error) {
 	switch startElement.Name.Local {
 	case "p":
-		// 解析段落
-		return d.parseParagraph(decoder, startElement)
+		// 解析段落（内容为数学公式的段落读取为 MathParagraph）
+		return d.parseBodyParagraph(decoder, startElement)
 	case "tbl":
 		// 解析表格
 		return d.parseTable(decoder, startElement)
@@ -2165,6 +2165,12 @@ func (d *Document) parseBodySubElement(decoder *xml.Decoder, startElement xml.St
 
 // parseParagraph 解析段落
 func (d *Document) parseParagraph(decoder *xml.Decoder, startElement xml.StartElement) (*Paragraph, error) {
+	return d.parseParagraphContent(decoder, nil)
+}
+
+// parseParagraphContent 解析段落内容。math 不为 nil 时，段落中的 m:oMath / m:oMathPara
+// 不被跳过，而是记录到 math 中（见 parseBodyParagraph）
+func (d *Document) parseParagraphContent(decoder *xml.Decoder, math *paragraphMath) (*Paragraph, error) {
 	paragraph := &Paragraph{
 		Runs: make([]Run, 0),
 	}
@@ -2195,6 +2201,14 @@ func (d *Document) parseParagraph(decoder *xml.Decoder, startElement xml.StartEl
 			case "hyperlink", "ins", "smartTag", "sdt", "sdtContent", "fldSimple", "customXml", "moveTo":
 				// 这些容器里的运行同样承载正文文本：不跳过，继续读取其中的 w:r
 				// （容器本身的属性元素 sdtPr、smartTagPr 等仍由 default 分支跳过）
+			case "oMath", "oMathPara":
+				if math == nil || t.Name.Space != officeMathNamespace {
+					if err := d.skipElement(decoder, t.Name.Local); err != nil {
+						return nil, err
+					}
+				} else if err := math.read(decoder, t); err != nil {
+					return nil, err
+				}
 			default:
 				// 跳过其他元素
 				if err := d.skipElement(decoder, t.Name.Local); err != nil {
